@@ -185,6 +185,7 @@ def cases(rng, tier):
 SPEC = {
     'lean': ['C15'],
     'cases': cases,
+    'big': True,
     'stream': 'C15 import stream (scratch directory trees)',
     'rule': 'scratch trees of nesting 1–3 whose components are spelled with random same-skeleton names (other vowels, tense '
             'consonants, Latin affixes, extensions), with distractor siblings of other skeletons / non-matching names / empty '
